@@ -179,6 +179,25 @@ class C08(Prop):
                     acc.violation(f"field-wrong:{kind}:{name}", f"{kind} reply {d}: {name} = {got}, want {want}", {"kind": kind, "desc": d, "reply": reply.hex()})
                 acc.sig(env.sig(kind, sorted(d.items())))
                 acc.count(f"replies_{kind}")
+                if q % 6 == i % 6:
+                    # an application that reads the socket itself hands the reply over in whatever buffer it has
+                    from aioswitcher.api import messages as _m
+
+                    rcls = {"state1": _m.SwitcherStateResponse, "shutter": _m.SwitcherShutterStateResponse, "thermo": _m.SwitcherThermostatStateResponse}[kind]
+                    backing = bytearray(reply)
+                    for form, buf in (("bytearray", bytearray(reply)), ("memoryview", memoryview(reply)), ("memoryview-of-bytearray", memoryview(backing)),
+                                      ("keyword", None)):
+                        acc.ev()
+                        acc.count(f"direct_{form}")
+                        try:
+                            robj = rcls(unparsed_response=reply) if buf is None else rcls(buf)
+                        except Exception as exc:
+                            acc.violation(f"well-formed-reply-raised:{kind}:{form}", f"{kind} reply {d} held in a {form} raised {type(exc).__name__}: {exc}",
+                                          {"kind": kind, "desc": d, "reply": reply.hex(), "form": form})
+                            continue
+                        for name, got, want in mismatches(kind, robj, d):
+                            acc.violation(f"field-wrong:{kind}:{name}", f"{kind} reply {d} held in a {form}: {name} = {got}, want {want}",
+                                          {"kind": kind, "desc": d, "reply": reply.hex(), "form": form})
             # login reply: the four session bytes at offset 8
             for cl, t in ((c1, 1), (c2, 2)):
                 acc.ev()
